@@ -1105,6 +1105,32 @@ impl<'a, 'b> G<'a, 'b> {
     /// `{ use p <- apply(arg)  body }`
     fn use_expr(&mut self, t: &T, depth: usize) {
         self.tag("use expression");
+        // the binder may be spelled like an outer variable that the call itself uses: inside the
+        // call that name is still the outer one, in the statements after the `use` it is the binder
+        let outer: Vec<(String, T)> = self
+            .env
+            .iter()
+            .filter(|(n, ty)| self.env.iter().rev().find(|(m, _)| m == n).map(|(_, t2)| t2 == ty).unwrap_or(false) && !self.opaque.contains(n))
+            .cloned()
+            .collect();
+        if !outer.is_empty() && self.c.chance(90) {
+            self.tag("use binder spelled like a variable of its own call");
+            let (q, tq) = outer[self.c.below(outer.len())].clone();
+            let a = T::Tuple(vec![t.clone(), tq]);
+            self.out.push_str("{\nuse ");
+            let off = self.out.len();
+            self.out.push_str(&q);
+            self.out.push_str(" <- apply(#(");
+            self.expr(t, 0);
+            self.out.push_str(&format!(", {}))\n{}.0\n}}", q, q));
+            let mark = self.env.len();
+            self.env.push((q.clone(), a.clone()));
+            self.record(&q, off, a, "use binder");
+            self.env.truncate(mark);
+            // `record` dropped a taint/opaque mark of the outer variable of that name for good;
+            // being conservative the other way round costs nothing
+            return;
+        }
         let (a, proj) = self.callback_arg_type(t);
         let p = self.fresh("p");
         self.out.push_str("{\nuse ");
